@@ -13,9 +13,10 @@ import json
 from lib import vlib
 from lib.vlib import cq_bytes, cq_list, cq_bool, cq_N, cq_Z
 
-SETUP_BUILDS = [{"name": "c16"}]
-COQ_TARGETS = ["Mem/Properties_C16.v", "Mem/Corr.v"]
-HEADER = ("From Coq Require Import List NArith ZArith Bool.\nFrom V Require Import Common.Bytes Mem.Model Mem.Corr.\n"
+SCHED_BUILD = {"name": "c16sched", "test_pkg": "./server", "overlays": ["server/c16_test.go", "llm/c16.go"]}
+SETUP_BUILDS = [{"name": "c16"}, SCHED_BUILD]
+COQ_TARGETS = ["Mem/Properties_C16.v", "Mem/Corr.v"]   # these pull in Mem/Model, Proofs, Sched, SchedProofs
+HEADER = ("From Coq Require Import List NArith ZArith Bool.\nFrom V Require Import Common.Bytes Mem.Model Mem.Sched Mem.Corr.\n"
           "Import ListNotations.\nOpen Scope N_scope.\n")
 W64 = 1 << 64
 LIBS = ["cuda", "rocm", "metal", "oneapi", "cpu"]
@@ -395,7 +396,17 @@ def cq_listN(l):
     return cq_list([cq_N(I(x)) for x in l], "N")
 
 
+def cq_obs(e):
+    it = e["internals"]
+    return "(mkobs %s %s %s %s %s %s %s %s %s %s %s %s %s)" % (
+        cq_N(e["layers"]) if e["layers"] >= 0 else "0", cq_N(I(e["graph"])), cq_N(I(e["vram"])), cq_N(I(e["total"])), cq_listN(e["sizes"]),
+        cq_listN(split_list(e["split"])), cq_N(I(it["kv"])), cq_N(I(it["weights"])), cq_N(I(it["out"])), cq_N(I(it["graph_full"])),
+        cq_N(I(it["graph_partial"])), cq_N(I(it["projector_weights"])), cq_N(I(it["projector_graph"])))
+
+
 def render(c, o):
+    if c["op"] in ("loaded", "first"):
+        return render_sched(c, o)
     if c["op"] == "bylib":
         groups = [[c["gpus"][i] for i in ids] for ids in (o["groups"] or [])]
         return "chk_bylib %s %s" % (cq_gpus(c["gpus"]), cq_list([cq_gpus(g) for g in groups], "(list gpu)"))
@@ -405,12 +416,7 @@ def render(c, o):
         e = o["est"]
         if "panic" in e:
             return "chk_estimate_panic " + args
-        it = e["internals"]
-        ob = "(mkobs %s %s %s %s %s %s %s %s %s %s %s %s %s)" % (
-            cq_N(e["layers"]) if e["layers"] >= 0 else "0", cq_N(I(e["graph"])), cq_N(I(e["vram"])), cq_N(I(e["total"])), cq_listN(e["sizes"]),
-            cq_listN(split_list(e["split"])), cq_N(I(it["kv"])), cq_N(I(it["weights"])), cq_N(I(it["out"])), cq_N(I(it["graph_full"])),
-            cq_N(I(it["graph_partial"])), cq_N(I(it["projector_weights"])), cq_N(I(it["projector_graph"])))
-        return "chk_estimate %s %s %s" % (args, ob, cq_bool(demand_bound(c, inp) < W64))
+        return "chk_estimate %s %s %s" % (args, cq_obs(e), cq_bool(demand_bound(c, inp) < W64))
     f = o["fit"]
     if "panic" in f:
         return "false"
@@ -418,11 +424,259 @@ def render(c, o):
 
 
 def model_term(c, o):
+    if c["op"] in ("loaded", "first"):
+        return sched_model_term(c, o)
     if c["op"] == "bylib":
         return "by_library %s" % cq_gpus(c["gpus"])
     inp = o["in"]
     args = "%s %s %s" % (cq_gpus(c["gpus"]), cq_model(inp), cq_opts(c, inp))
     return ("estimate_gpus " if c["op"] == "estimate" else "predict_server_fit ") + args
+
+
+
+# ------------------------------------------------------------------ the scheduler path (server/sched.go)
+
+SCHED_ARGS = ["-test.run", "TestVerifC16Sched$"]
+
+
+def sched_env():
+    e = vlib.goenv()
+    e["VERIF_C16_SCHED"] = "1"
+    return e
+
+
+def tries_of(np):
+    return [4, 1] if np <= 0 else [np]
+
+
+def gen_sched_cases(rng, cfg, ins, k):
+    """scheduler states around one model: GPUs of 1-2 libraries (IDs may repeat across libraries), 0-3 loaded runners with
+    predicted per-GPU usage, foreign usage (reported free well below total - ours), laggy reporting (reported free above
+    total - ours), predicted > total; the *effective* free memory is aimed at the estimator's thresholds"""
+    out = []
+    common = {k2: cfg[k2] for k2 in ("model", "projectors", "num_gpu", "num_batch")}
+    for _ in range(k):
+        op = "loaded" if rng.random() < 0.75 else "first"
+        np_ = rng.choice([0, 0, 1, 1, 2, 4, -1])
+        aim_p = rng.choice(tries_of(np_))
+        inp = ins[str(aim_p)] if str(aim_p) in ins else ins["1"]
+        ovh = gen_overhead(rng, inp, cfg)
+        libs = rng.choice([[("cuda", "")], [("cuda", "")], [("rocm", "")], [("cuda", ""), ("rocm", "")], [("cuda", "v11"), ("cuda", "v12")],
+                           [("rocm", ""), ("cuda", "")], [("cpu", "")]])
+        share_ids = rng.random() < 0.4
+        gl = []
+        for li, (lib, var) in enumerate(libs):
+            n = rng.choice([1, 1, 2, 2, 3, 4])
+            for gi, g in enumerate(gen_gpus(rng, inp, cfg, ovh, n, lib)):
+                g["variant"] = var
+                g["id"] = str(gi) if share_ids else "%s%s-%d" % (lib, var, gi)
+                gl.append(g)
+        gl = gl[:8]
+        if rng.random() < 0.4:
+            rng.shuffle(gl)
+        ids = sorted({g["id"] for g in gl})
+        runners = []
+        if op == "loaded":
+            for _ in range(rng.choice([1, 1, 2, 3])):
+                on = rng.sample(ids, rng.randint(0, len(ids)))
+                scale = rng.choice([1, 1000, 10 ** 6, max(1, sum(derived(inp, 1, "cuda")["layers"]))])
+                runners.append({"loading": rng.random() < 0.2, "gpus": on + (["elsewhere"] if rng.random() < 0.1 else []),
+                                "llama": rng.random() < 0.93,
+                                "vram": {i: str(rng.randint(0, 3 * scale)) for i in on if rng.random() < 0.9}})
+        ours = {}
+        for g in gl:
+            ours[g["id"]] = sum(I(r["vram"].get(g["id"], 0)) for r in runners if r["llama"])
+        for g in gl:
+            eff = I(g["free"])          # the free memory we want the estimator to see
+            p = ours[g["id"]]
+            kind = rng.choice(["foreign", "foreign", "foreign", "laggy", "exact", "over", "plain", "free>total"])
+            if kind == "foreign":       # another application holds VRAM: reported free is far below total - ours
+                g["total"] = str(eff + p + rng.choice([1, 1000, 10 ** 6, 2 * eff + 5, 10 ** 9]))
+            elif kind == "laggy":       # our usage is not reflected yet: reported free is above total - ours, the clamp lowers it
+                g["total"] = str(eff + p)
+                g["free"] = str(eff + rng.choice([1, p, rng.randint(0, p + 1)]))
+            elif kind == "exact":
+                g["total"] = str(eff + p)
+            elif kind == "over":        # predicted usage exceeds the total: free becomes 0
+                g["total"] = str(max(0, p - rng.randint(1, 10)))
+            elif kind == "free>total":
+                g["total"] = str(max(0, eff - rng.randint(0, 10)))
+            else:
+                g["total"] = str(eff + p + rng.randint(0, 5))
+        out.append(dict(common, op=op, num_ctx=rng.choice([4, 64, 512, 2048]), num_parallel=np_, overhead=str(ovh), spread=rng.random() < 0.15,
+                        gpus=gl, runners=runners, klass="sched/%s/%s" % (op, "auto" if np_ <= 0 else "np%d" % np_)))
+    return out
+
+
+def sched_inp(c, o):
+    """the model-file inputs that belong to the parallel setting the scheduler ended with"""
+    p = o.get("p", 1)
+    return o["in"].get(str(max(p, 1)), o["in"]["1"])
+
+
+def sched_monitor(c, o):
+    """the property end to end: nothing the scheduler hands to the estimator has more free memory than was reported, and the
+    plan for the chosen GPUs stays within the REPORTED free memory less the overhead"""
+    bad = []
+    reported = {}
+    for g in c["gpus"]:
+        k = (g["lib"], g.get("variant", ""), g["id"])
+        reported[k] = max(reported.get(k, 0), I(g["free"]))
+
+    def key(g):
+        return (g["lib"], g.get("variant", ""), g["id"])
+    for g in o.get("avail") or []:
+        if key(g) not in reported:
+            bad.append(("sched_free_raised", "the scheduler hands over a GPU %s that was not reported" % (key(g),)))
+        elif I(g["free"]) > reported[key(g)]:
+            bad.append(("sched_free_raised", "GPU %s reported %d bytes free but the scheduler passes %d to the estimator (total %s)"
+                        % (key(g), reported[key(g)], I(g["free"]), g["total"])))
+            break
+    chosen = o.get("chosen")
+    if chosen:
+        if any(key(g) not in reported for g in chosen):
+            bad.append(("sched_per_gpu_bound", "a chosen GPU was not reported"))
+        elif isinstance(o.get("est"), dict) and "panic" not in o["est"]:
+            rep = [dict(g, free=str(reported[key(g)])) for g in chosen]
+            c2 = dict(c, op="estimate", gpus=rep)
+            for cl, txt in clause_failures(c2, sched_inp(c, o), {"est": o["est"]}):
+                bad.append(("sched_" + cl if cl == "per_gpu_bound" else cl, "plan for the GPUs the scheduler chose (reported free memory): " + txt))
+            if o.get("full"):
+                bc, ng = int(sched_inp(c, o)["bc"]), c["num_gpu"]
+                need = bc + 1 if ng < 0 else min(ng, bc + 1)
+                if not (o["est"]["layers"] > 0 and o["est"]["layers"] >= need):
+                    bad.append(("fit_sound", "the scheduler found a complete fit but the plan places %d of %d layers" % (o["est"]["layers"], need)))
+        elif isinstance(o.get("est"), dict):
+            bad.append(("panic", "estimator panicked on the scheduler's GPU list: %s" % o["est"]["panic"]))
+    return bad
+
+
+def cq_xgpu(g):
+    return "(mkx %s %s %s)" % (cq_str(g["id"]), cq_N(I(g["total"])), cq_gpu(g))
+
+
+def cq_xgpus(gl):
+    return cq_list([cq_xgpu(g) for g in gl], "xgpu")
+
+
+def cq_runner(r):
+    tbl = cq_list(["(%s, %s)" % (cq_str(k), cq_N(I(v))) for k, v in sorted(r.get("vram", {}).items())], "(str * N)")
+    return "(mkrunner %s %s %s %s)" % (cq_bool(r["loading"]), cq_list([cq_str(i) for i in r["gpus"]], "str"), cq_bool(r["llama"]), tbl)
+
+
+def sched_args(c, o):
+    tbl = cq_list(["(%s, %s)" % (cq_Z(int(p)), cq_model(m)) for p, m in sorted(o["in"].items(), key=lambda kv: int(kv[0]))], "(Z * model)")
+    return "%s %s %s %s %s" % (cq_bool(bool(c.get("spread"))), cq_Z(c["num_parallel"]), tbl, cq_model(o["in"]["1"]), cq_opts(c, o["in"]["1"]))
+
+
+def render_sched(c, o):
+    est = "None"
+    if isinstance(o.get("est"), dict):
+        if "panic" in o["est"]:
+            return "false"
+        est = "(Some %s)" % cq_obs(o["est"])
+    if c["op"] == "loaded":
+        res = "None" if not o["full"] else "(Some (%s, %s))" % (cq_Z(o["p"]), cq_xgpus(o["chosen"]))
+        rs = cq_list([cq_runner(r) for r in c["runners"]], "runner")
+        return "chk_sched_loaded %s %s %s %s %s %s %s" % (rs, cq_xgpus(c["gpus"]), sched_args(c, o), cq_xgpus(o["filtered"]), cq_xgpus(o["avail"]), res, est)
+    return "chk_sched_first %s %s %s (%s, %s) %s" % (cq_xgpus(c["gpus"]), sched_args(c, o), cq_bool(o["full"]), cq_Z(o["p"]), cq_xgpus(o["chosen"] or []), est)
+
+
+def sched_model_term(c, o):
+    a = sched_args(c, o).split(" ", 2)
+    mp = "(mp_of %s)" % sched_args(c, o).split(" ", 2)[2].rsplit(" (mkopts", 1)[0]
+    opts = cq_opts(c, o["in"]["1"])
+    if c["op"] == "loaded":
+        rs = cq_list([cq_runner(r) for r in c["runners"]], "runner")
+        return "sched_loaded %s %s %s %s %s %s" % (rs, cq_xgpus(c["gpus"]), a[0], a[1], mp, opts)
+    return "sched_first %s %s %s %s %s" % (cq_xgpus(c["gpus"]), a[0], a[1], mp, opts)
+
+
+def sched_shrink(ctx, binp, c, clause):
+    def fails(cand):
+        obs, _ = ctx.run_jsonl(binp, [cand], args=SCHED_ARGS, env=sched_env())
+        return bool(obs) and len(obs) == 1 and "in" in obs[0] and any(cl == clause for cl, _ in sched_monitor(cand, obs[0]))
+    cur, budget, changed = dict(c), 40, True
+    while changed and budget > 0:
+        changed = False
+        for key_, n in (("gpus", 1), ("runners", 0)):
+            for i in range(len(cur[key_])):
+                if len(cur[key_]) <= n:
+                    break
+                cand = dict(cur, **{key_: cur[key_][:i] + cur[key_][i + 1:]})
+                budget -= 1
+                if fails(cand):
+                    cur, changed = cand, True
+                    break
+        for key_, val in (("projectors", []), ("overhead", "0"), ("num_gpu", -1), ("num_parallel", 1), ("spread", False)):
+            if cur.get(key_) != val and budget > 0:
+                cand = dict(cur, **{key_: val})
+                budget -= 1
+                if fails(cand):
+                    cur, changed = cand, True
+    return cur
+
+
+def run_sched(ctx, only_cases=None):
+    binp = ctx.go_build(**SCHED_BUILD)
+    if not binp:
+        return
+    rng = ctx.rng
+    if only_cases is not None:
+        cases = only_cases
+    else:
+        ncfg, k = (45, 14) if ctx.quick() else (400, 30)
+        cfgs = [gen_config(rng) for _ in range(ncfg)]
+        probes = [dict({k2: cfg[k2] for k2 in ("model", "projectors", "num_gpu", "num_batch")}, op="probe", num_ctx=64, num_parallel=2, overhead="0",
+                       spread=False, gpus=[], runners=[]) for cfg in cfgs]
+        pobs, err = ctx.run_jsonl(binp, probes, args=SCHED_ARGS, env=sched_env())
+        if pobs is None or len(pobs) != len(probes) or any("in" not in p for p in pobs):
+            detail = err + " " + json.dumps([p for p in (pobs or []) if "in" not in p][:2])[:1500]
+            ctx.obligation("harness c16sched answered every probe", False, detail)
+            ctx.proof_failures.append({"obligation": "correspondence: harness c16sched could not load the generated models", "detail": detail})
+            return
+        cases = load_corpus(("loaded", "first"))
+        for cfg, pb in zip(cfgs, pobs):
+            cases += gen_sched_cases(rng, cfg, pb["in"], k)
+    obs, err = ctx.run_jsonl(binp, [strip(c) for c in cases], args=SCHED_ARGS, timeout=1200, env=sched_env())
+    if obs is None or len(obs) != len(cases) or any("harness_error" in o or "in" not in o for o in obs):
+        detail = err + " " + json.dumps([o for o in (obs or []) if "in" not in o][:2])[:1500]
+        ctx.obligation("harness c16sched answered every case", False, detail)
+        ctx.proof_failures.append({"obligation": "correspondence: harness c16sched did not answer every case", "detail": detail})
+        return
+    items, nviol = [], 0
+    for c, o in zip(cases, obs):
+        ctx.note_case(strip(c), bool(o.get("chosen")) and isinstance(o.get("est"), dict) and o["est"].get("layers", 0) > 0, c.get("klass", "replay"),
+                      sample={"case": summarize(c), "impl": {k2: v for k2, v in o.items() if k2 != "in"}})
+        lowered = sum(1 for g, a in zip(o.get("filtered") or [], o.get("avail") or []) if I(a["free"]) < I(g["free"]))
+        ctx.count("sched-free-lowered" if lowered else "sched-free-kept")
+        if c["op"] == "loaded":
+            ctx.count("sched-full-fit" if o.get("full") else "sched-no-fit")
+        fails = sched_monitor(c, o)
+        if fails:
+            clause, text = fails[0]
+            rep = [dict(g) for g in (o.get("chosen") or c["gpus"])]
+            wrapc = demand_bound(dict(c, gpus=rep), sched_inp(c, o)) >= W64
+            small, so = c, o
+            if nviol < 3 and not wrapc:
+                small = sched_shrink(ctx, binp, strip(c), clause)
+                so = (ctx.run_jsonl(binp, [small], args=SCHED_ARGS, env=sched_env())[0] or [o])[0]
+                text = next((t for cl, t in sched_monitor(small, so) if cl == clause), text)
+            nviol += 1
+            ctx.violation({"op": c["op"], "clause": clause, "class": "uint64-wrap" if wrapc else "plain"}, "%s: %s" % (clause, text),
+                          {"case": strip(small), "impl": {k2: v for k2, v in so.items() if k2 != "in"}, "all_failed_clauses": fails,
+                           "model": ctx.coq_print(HEADER, model_term(small, so)) if nviol <= 2 else None})
+        items.append(render(c, o))
+    bad, log = ctx.coq_eval(HEADER, items, per_file=60, name="sched")
+    if bad is None:
+        ctx.obligation("correspondence: scheduler-path model evaluated on all cases", False, log)
+        ctx.proof_failures.append({"obligation": "correspondence evaluation (scheduler path) failed in coqc", "detail": log})
+        return
+    ctx.disagreements_checked += len(items)
+    ctx.obligation("correspondence: scheduler-path model = implementation on %d cases" % len(items), not bad)
+    for i in bad[:10]:
+        ctx.mismatch("Mem/Corr.%s" % items[i].split()[0], strip(cases[i]), {k2: v for k2, v in obs[i].items() if k2 != "in"},
+                     ctx.coq_print(HEADER, model_term(cases[i], obs[i])) if len(ctx.mismatches) < 3 else None)
 
 
 # ------------------------------------------------------------------ driver
@@ -491,7 +745,7 @@ def neighbours(rng, c, inp, k):
     return out
 
 
-def run(ctx, only_cases=None):
+def run(ctx, only_cases=None, sched_cases=None):
     ctx.rule = ("cases: generated GGUF models (0-12 blocks; uniform/uneven/growing/spiky/missing layers; output / token_embd / output_norm / none; "
                 "llama, qwen2, unknown arch (graph fallback), gemma3 with vision tower; 0-2 projector files incl. missing and mllama) x options "
                 "(num_ctx, num_batch, num_parallel, num_gpu in {-1,0..blocks+2,999,...}, OLLAMA_GPU_OVERHEAD) x 1-8 GPUs whose free memory is aimed at "
@@ -511,12 +765,17 @@ def run(ctx, only_cases=None):
     ctx.proof_stage(["Mem"], "Mem/Properties_C16.v", extra_targets=["Mem/Corr.v"],
                     expect_theorems=["C16_per_gpu_bound", "C16_per_gpu_bound_refuted", "C16_layers_le_model_and_limit", "C16_split_sums",
                                      "C16_total_ge_vram", "C16_total_ge_vram_refuted", "C16_fit_sound", "C16_unadmitted_gpu_gets_nothing",
-                                     "C16_by_library_partition", "C16_no_wrap_below_2_64", "C16_bytes_below_2_64"])
+                                     "C16_by_library_partition", "C16_no_wrap_below_2_64", "C16_bytes_below_2_64", "C16_sched_free_never_raised",
+                                     "C16_sched_pick_full_sound", "C16_sched_per_gpu_bound_reported", "C16_sched_first_per_gpu_bound"])
     if not ctx.quick():
         ctx.coqchk(["V.Mem.Properties_C16", "V.Mem.Corr"])
     binp = ctx.go_build("c16")
     if not binp:
         return
+    if sched_cases is not None:
+        run_sched(ctx, sched_cases)
+        if not only_cases:
+            return
     rng = ctx.rng
     if only_cases is not None:
         cases = only_cases
@@ -608,6 +867,8 @@ def run(ctx, only_cases=None):
                     ctx.violation({"op": c["op"], "clause": fails[0][0], "class": "plain"}, "%s: %s" % fails[0], {"case": small, "found": "near a model/implementation disagreement"})
                     break
             ctx.extra["searched_around_disagreements"] = len(around)
+    if only_cases is None:
+        run_sched(ctx)
 
 
 def summarize(c):
@@ -617,7 +878,7 @@ def summarize(c):
     return d
 
 
-def load_corpus():
+def load_corpus(ops=("estimate", "fit", "bylib")):
     import glob
     import os
     out = []
@@ -625,7 +886,8 @@ def load_corpus():
         try:
             c = json.load(open(p))
             c["klass"] = "corpus"
-            out.append(c)
+            if c.get("op") in ops:
+                out.append(c)
         except Exception:
             pass
     return out
@@ -644,7 +906,10 @@ def replay(ctx, path):
         run(ctx)
     else:
         case["klass"] = "replay"
-        run(ctx, only_cases=[case])
+        if case.get("op") in ("loaded", "first"):
+            run(ctx, only_cases=[], sched_cases=[case])
+        else:
+            run(ctx, only_cases=[case])
 
 
 MANIFEST = {
